@@ -22,7 +22,7 @@ LatticeAt(j) ==
                             !["nonce"] = NHexQty(BnFromNat(j))]
       flags == (IF only THEN <<"signature_only">> ELSE <<>>) \o (IF allow THEN <<"allow_missing">> ELSE <<>>)
   IN  CItem("lattice", Cmd("sign", "transaction", PlainAcct(Mnemonics[1 + (j % 2)]), flags, "",
-                           IF j % 2 = 0 THEN "file" ELSE "stdin", [doc |-> MkDoc(f)]))
+                           ChanNo(j), [doc |-> MkDoc(f)]))
 \* hashing is never guarded
 NHash == 3 * 4
 HashAt(j) ==
